@@ -36,6 +36,8 @@ var (
 	r18     = tcpip.Address("\x0a\x00\x01\x08")
 	r29     = tcpip.Address("\x0a\x00\x02\x09")
 	foreign = tcpip.Address("\x0a\x00\x01\x4d")
+	group1  = tcpip.Address("\xe0\x00\x00\x09") // multicast groups: assigned to an interface while a socket is a member
+	group2  = tcpip.Address("\xef\x01\x01\x01")
 )
 
 type world struct {
@@ -44,11 +46,17 @@ type world struct {
 	mu       sync.Mutex
 	out      [3][]*wire.Frame
 	assigned map[tcpip.NICID]map[tcpip.Address]bool
+	members  map[tcpip.NICID]map[tcpip.Address]int // multicast memberships held by open sockets
+}
+
+type membership struct {
+	nic   tcpip.NICID
+	group tcpip.Address
 }
 
 func newWorld() *world {
 	s := stack.New([]string{ipv4.ProtocolName, ipv6.ProtocolName}, []string{tcp.ProtocolName, udp.ProtocolName}, stack.Options{})
-	w := &world{s: s, assigned: map[tcpip.NICID]map[tcpip.Address]bool{1: {}, 2: {}}}
+	w := &world{s: s, assigned: map[tcpip.NICID]map[tcpip.Address]bool{1: {}, 2: {}}, members: map[tcpip.NICID]map[tcpip.Address]int{1: {}, 2: {}}}
 	for id := 1; id <= 2; id++ {
 		id := id
 		l := wire.NewLink(fmt.Sprintf("nic%d", id), 1500, "", 0)
@@ -94,6 +102,7 @@ type sock struct {
 	RPort  uint16
 	ep     tcpip.Endpoint
 	closed bool
+	groups []membership
 }
 
 func (s *sock) String() string {
@@ -102,7 +111,7 @@ func (s *sock) String() string {
 
 // reference demultiplexer, written from the statement.
 func (w *world) expect(socks []*sock, proto string, nic tcpip.NICID, dst tcpip.Address, dport uint16, src tcpip.Address, sport uint16) *sock {
-	if !w.assigned[nic][dst] {
+	if !w.assigned[nic][dst] && w.members[nic][dst] == 0 {
 		return nil // not addressed to this interface
 	}
 	for _, scope := range []tcpip.NICID{nic, 0} {
@@ -219,6 +228,55 @@ func scenario(k int) {
 	for i := 0; i < 1+r.Intn(10); i++ {
 		open()
 	}
+	// multicast: sockets join groups on an interface (before or after binding), leave them
+	// again or are closed; a group address is the interface's while some open socket is a member
+	join := func(s *sock, ep tcpip.Endpoint) bool {
+		m := membership{tcpip.NICID(1 + r.Intn(2)), []tcpip.Address{group1, group2}[r.Intn(2)]}
+		if e := ep.SetSockOpt(tcpip.AddMembershipOption{NIC: m.nic, InterfaceAddr: "\x00\x00\x00\x00", MulticastAddr: m.group}); e != nil {
+			tr("join %v on NIC %d failed: %v", []byte(m.group), m.nic, e)
+			return false
+		}
+		if s != nil {
+			s.groups = append(s.groups, m)
+			w.members[m.nic][m.group]++
+			tr("#%d joins %v on NIC %d", s.ID, []byte(m.group), m.nic)
+		}
+		run.Count("multicast_joins", 1)
+		return true
+	}
+	for _, s := range socks {
+		if s.Proto == "udp" && r.Chance(1, 3) {
+			join(s, s.ep)
+			if r.Chance(1, 4) {
+				join(s, s.ep)
+			}
+		}
+	}
+	for _, s := range socks {
+		if len(s.groups) > 0 && r.Chance(1, 4) {
+			m := s.groups[len(s.groups)-1]
+			if e := s.ep.SetSockOpt(tcpip.RemoveMembershipOption{NIC: m.nic, InterfaceAddr: "\x00\x00\x00\x00", MulticastAddr: m.group}); e == nil {
+				s.groups = s.groups[:len(s.groups)-1]
+				w.members[m.nic][m.group]--
+				tr("#%d leaves %v on NIC %d", s.ID, []byte(m.group), m.nic)
+			}
+		}
+	}
+	if r.Chance(1, 3) {
+		// a socket that joins before it is bound and never gets as far as being bound: the bind
+		// fails (port taken) or is not attempted; closing it ends its memberships all the same
+		if ep, e := w.s.NewEndpoint(udp.ProtocolNumber, ipv4.ProtocolNumber, &waiter.Queue{}); e == nil {
+			joined := join(nil, ep)
+			if r.Bool() && len(socks) > 0 {
+				be := ep.Bind(tcpip.FullAddress{Addr: socks[0].LAddr, Port: socks[0].LPort, NIC: socks[0].NIC}, nil)
+				tr("a socket joins a group (%v), its bind to #0's address and port -> %v, and it is closed", joined, be)
+			} else {
+				tr("a socket joins a group (%v) and is closed without ever being bound", joined)
+			}
+			ep.Close()
+			run.Count("sockets_closed_unbound_after_joining", 1)
+		}
+	}
 	// a bind whose commit step fails while a datagram for that very port arrives: the
 	// roll-back must leave the socket owning nothing
 	var ghost tcpip.Endpoint
@@ -258,6 +316,9 @@ func scenario(k int) {
 		if r.Chance(1, 5) {
 			s.ep.Close()
 			s.closed = true
+			for _, m := range s.groups {
+				w.members[m.nic][m.group]--
+			}
 			tr("close #%d", s.ID)
 			// a listener is restarted at once on the same port (before the old one's
 			// goroutine has wound down)
@@ -322,7 +383,7 @@ func scenario(k int) {
 	}
 	n := 0
 	for nic := tcpip.NICID(1); nic <= 2 && !bad; nic++ {
-		for _, dst := range []tcpip.Address{l11, l12, l21, foreign} {
+		for _, dst := range []tcpip.Address{l11, l12, l21, foreign, group1, group2} {
 			for _, dport := range append(ports, 999) {
 				for _, src := range []tcpip.Address{r19, r18, r29} {
 					for _, sport := range []uint16{5000, 5001} {
@@ -340,7 +401,8 @@ func scenario(k int) {
 						w.links[nic].Inject(ipv4.ProtocolNumber, ip.Bytes(true), "")
 						want := w.expect(socks, "udp", nic, dst, dport, src, sport)
 						desc := fmt.Sprintf("UDP %v:%d > %v:%d arriving on NIC %d", []byte(src), sport, []byte(dst), dport, nic)
-						unassigned := !w.assigned[nic][dst]
+						unassigned := !w.assigned[nic][dst] && w.members[nic][dst] == 0
+						multicast := dst == group1 || dst == group2
 						var got []*sock
 						for _, s := range socks {
 							if s.closed || s.Proto != "udp" {
@@ -359,6 +421,9 @@ func scenario(k int) {
 							}
 						}
 						run.Count("udp_packets_judged", 1)
+						if multicast && want != nil && len(got) == 1 && got[0] == want {
+							run.Count("multicast_datagrams_delivered_to_the_member_interface", 1)
+						}
 						switch {
 						case len(got) > 1:
 							viol("udp/delivered-twice", fmt.Sprintf("%s delivered to %d sockets: %v and %v", desc, len(got), got[0], got[1]))
@@ -376,7 +441,7 @@ func scenario(k int) {
 							viol("udp/wrong-socket", fmt.Sprintf("%s delivered to %s, the most specific match is %s", desc, got[0], want))
 						}
 						// --- TCP SYN: a listener answers, otherwise exactly one reset (if the address is ours)
-						if n%3 == 0 && !bad {
+						if n%3 == 0 && !bad && !multicast {
 							w.takeAll()
 							t := rfc.TCP{SrcPort: sport, DstPort: dport, Seq: uint32(n) * 1000, Flags: rfc.SYN, Window: 1000}
 							ip := rfc.IPv4{TTL: 64, Proto: rfc.ProtoTCP, ID: uint16(n), Src: s4, Dst: d4, Payload: t.Bytes4(s4, d4, true)}
